@@ -462,6 +462,96 @@ def gen_odt_bodies():
             yield "+".join(combo), N(q("office", "text"), *[a[c]() for c in combo])
 
 
+def gen_odg_roots():
+    """office:drawing with one page of <= 2 shapes out of {text box, custom shape with text, text box in a group,
+    list in a text box, text box anchored inside a paragraph, annotation}."""
+    def alts(tk):
+        box = lambda *ps: N(D_FRAME, N(D_TEXTBOX, *ps))
+        return {
+            "textbox": lambda: box(tp(tk.v()), tp(tk.v())),
+            "heading": lambda: box(N(T_H, text=tk.v())),
+            "custom-shape": lambda: N(q("draw", "custom-shape"), tp(tk.v())),
+            "group": lambda: N(q("draw", "g"), box(tp(tk.v())), box(tp(tk.v()))),
+            "list": lambda: box(tlist([tp(tk.v())], [tp(tk.v()), tlist([tp(tk.v())])])),
+            "spans": lambda: box(N(T_P, N(T_SPAN, text=tk.v(), tail=tk.v()), N(T_LB, tail=tk.v()), text=tk.v())),
+            "nested-textbox": lambda: box(N(T_P, box(tp(tk.v()), tp(tk.v())), text=tk.v())),
+            "annotation": lambda: box(N(T_P, N(O_ANNOT, tp(tk.x("COM"))), text=tk.v())),
+        }
+    names = list(alts(Tok()))
+    for k in (1, 2):
+        for combo in itertools.product(names, repeat=k):
+            tk = Tok()
+            a = alts(tk)
+            yield "+".join(combo), N(q("office", "drawing"), N(q("draw", "page"), *[a[c]() for c in combo]))
+
+
+def odg_text(root: Node) -> str:
+    skip = frozenset({O_ANNOT})
+
+    def par(p):
+        out = [p.text or ""]
+        for c in p.children:
+            if c.tag in skip:
+                pass
+            elif c.tag == T_S:
+                out.append(" ")
+            elif c.tag == T_TAB:
+                out.append("\t")
+            elif c.tag == T_LB:
+                out.append("\n")
+            elif c.tag in (T_P, T_H):
+                out.append("\n" + par(c) + "\n")
+            else:
+                out.append(par(c))
+            out.append(c.tail or "")
+        return "".join(out)
+
+    def blocks(e):
+        out = []
+        for c in e.children:
+            if c.tag in (T_P, T_H):
+                out.append(par(c))
+            elif c.tag not in skip:
+                out.extend(blocks(c))
+        return out
+    return "\n".join(blocks(root))
+
+
+# ---------------------------------------------------------------------------------------------
+# PPTX paragraphs (DrawingML text body)
+A = "{http://schemas.openxmlformats.org/drawingml/2006/main}"
+
+
+def pptx_body_text(tx: Node) -> str:
+    pars = []
+    for p in tx.children:
+        if p.tag != A + "p":
+            continue
+        out = []
+        for c in p.children:
+            if c.tag in (A + "r", A + "fld"):
+                out.extend(t.text or "" for t in c.children if t.tag == A + "t")
+            elif c.tag == A + "br":
+                out.append("\n")
+        pars.append("".join(out))
+    return "\n".join(pars)
+
+
+def gen_pptx_bodies():
+    """a:txBody with <= 2 paragraphs of <= 3 items out of {run, run, break, field, endParaRPr}."""
+    def item(tk, k):
+        return {"r": lambda: N(A + "r", N(A + "rPr"), N(A + "t", text=tk.v())), "br": lambda: N(A + "br"),
+                "fld": lambda: N(A + "fld", N(A + "t", text=tk.v())), "end": lambda: N(A + "endParaRPr")}[k]()
+    kinds = ["r", "br", "fld", "end"]
+    pars = [c for n in (0, 1, 2, 3) for c in itertools.product(kinds, repeat=n)]
+    for np_ in (1, 2):
+        for combo in itertools.product(pars, repeat=np_):
+            if np_ == 2 and (len(combo[0]) > 2 or len(combo[1]) > 2):
+                continue
+            tk = Tok()
+            yield N(A + "txBody", N(A + "bodyPr"), *[N(A + "p", *[item(tk, k) for k in par]) for par in combo])
+
+
 # =============================================================================================
 # HTML (html_extractor.py)  -- dict tree as built by _HtmlTreeBuilder
 # =============================================================================================
